@@ -461,6 +461,19 @@ class Arr(object):
         if self.ndim == 1 and isinstance(index, Arr) and any(hasattr(v, 'flat_get') for v in index.items()):
             # data dependent positions in a 1-d array: the same as .flat[index]
             return Arr(index.shape, [flat_get(self, v) for v in index.items()], kind=self.kind)
+        if self.ndim == 2 and isinstance(index, tuple) and len(index) == 2 and isinstance(index[0], Arr) \
+                and any(type(v).__name__ == 'IdxAny' for v in index[0].items()):
+            # table[rows, columns] with rows computed from data and concrete columns: each result element is some entry of
+            # its column (the join of the column, plus what the row index depends on)
+            cols = index[1] if isinstance(index[1], Arr) else None
+            if cols is None or cols.shape != index[0].shape or not all(isinstance(c, int) for c in cols.items()):
+                raise AnalysisError('two-dimensional gather with data dependent rows and columns %r' % (index[1],))
+            from .dv import join_values
+            out = []
+            for r, c in zip(index[0].items(), cols.items()):
+                column = [self[k, c] for k in range(self.shape[0])]
+                out.append(join_values(column, getattr(r, 'tags', ())) if type(r).__name__ == 'IdxAny' else self[_as_int(r), c])
+            return Arr(index[0].shape, out, kind=self.kind)
         pos, shape = self._resolve(index)
         if shape == () and not _has_adv_or_slice(index):
             return self.buf.data[self.pos[pos[0]]]
